@@ -1,16 +1,52 @@
 (* C01 - Answers equal depth-first SLD resolution, in order.
 
-   The reference is Spec/SpecSolve.v (`sem`, `query_events`); the full statement is
-   `refines_reference` in Spec/Refine.v.  PROVED so far (for all programs and queries):
-   the pieces below.  NOT YET PROVED: `refines_reference` itself (the lock-step argument
-   between the resumable nodes and the trace semantics); it is evaluated on every generated
-   history by the check (extracted specification as oracle against the implementation, plus
-   model-vs-implementation correspondence on full substitution sets). *)
+   The reference for cut-free programs is Spec/SpecLazy.v: depth-first, left-to-right,
+   clause-order resolution in success-continuation style (`answers`), threading the world -
+   variable-id counter, stop flag, output - in search order.
+
+   PROVED (C01_refines), for EVERY knowledge base whose clause bodies are built from calls,
+   conjunctions, disjunctions and built-ins other than `!` (no not/time), every query, every
+   world and all fuels: if the reference search of the query finishes with R (the list of
+   answer substitutions in order, and the final world) and asking the query's node again and
+   again until it reports no answer finishes with R', then R' = R - the same answers, in the
+   same order and multiplicity, SYNTACTICALLY equal substitution sets (a fortiori equal up to
+   renaming of unbound variables), the same final variable-id counter and the same output.
+   The proof is a refinement: `den` (Proofs/RefineDen.v) maps every node state to the rest of
+   the reference search it stands for, `den_fresh` says a new node denotes the reference
+   search of its goal, `den_step` that one machine step either finds no answer - the
+   denotation is empty - or finds the next answer and leaves a node denoting the rest.
+   "Bindings of an abandoned alternative never appear later" is part of it: the answers are
+   the reference's, which has no shared mutable state at all.
+
+   For programs with cut / not the reference is the trace semantics of Spec/SpecSolve.v; the
+   statement for those (`refines_reference`, Spec/Refine.v) is not yet proved - what is
+   proved about cut and not is in Properties/C02.v, C03.v - and is evaluated by the check's
+   oracle on every generated history. *)
 From Coq Require Import String.
 From Suiron Require Import Model.Term Model.Subst Model.Show Model.Rename Model.Solve Spec.SpecSolve
-  Spec.Refine Proofs.SolveDead Proofs.SolveCut Proofs.SolveMisc.
+  Spec.SpecLazy Spec.Refine Proofs.SolveDead Proofs.SolveCut Proofs.SolveMisc Proofs.RefinePlain Proofs.RefineDen.
 
-Definition C01_full : Prop := refines_reference.
+Definition C01_full_with_cut : Prop := refines_reference.
+
+Theorem C01_refines : forall kb bf, plain_kb kb ->
+  forall q w fs R nd w1 m F R',
+    answers kb bf fs q w = Ok R ->
+    make_base_node kb (GCall q) w = Ok (nd, w1) ->
+    drainK kb bf m F nd w1 (fun s w' => Ok ([s], w')) = Ok R' -> R' = R.
+Proof. exact refines_lazy. Qed.
+
+(* the refinement mapping, for every node of a cut-free search and every continuation *)
+Theorem C01_step : forall kb bf, plain_kb kb -> forall F nd w nd' r c w1 fs k R,
+  pnode nd -> (1 <= fs)%nat -> next kb bf F nd w = Ok (nd', r, c, w1) -> den kb bf fs nd w k = Ok R ->
+  stepres kb bf fs k R nd' r w1.
+Proof. exact den_step. Qed.
+
+Theorem C01_fresh_node : forall kb bf g f fs ss w nd w' k1 k2 R,
+  plain g = true -> make_node kb g ss w = Ok (nd, w') -> (f <= fs)%nat -> kle k1 k2 ->
+  lsolve kb bf f g ss w k1 = Ok R -> den kb bf fs nd w' k2 = Ok R.
+Proof. exact den_fresh. Qed.
+
+
 
 (* solve_all / solve report each answer as `$Var = value` for the query's variable
    arguments, in argument order, separated by ", ". *)
@@ -33,6 +69,28 @@ Theorem C01_partial_calls_are_opaque : forall kb bf fuel t ss nobt child idx n w
   next kb bf fuel (NCall t ss nobt child idx n) w = Ok (nd', r, c, w') -> c = false.
 Proof. exact call_absorbs_cut. Qed.
 
+(* non-vacuity of C01_refines: p($X) :- n($X), ($X = 2 ; $X = 3).  n(1). n(2). n(3).  |- p($A):
+   the reference search and the drained node both finish, with the two answers *)
+Definition C01_demo : bool :=
+  let X := TVar 0 [36; 88]%N in
+  let n i := mkRule (TComplex [TAtom [110%N]; TInt i]) GNil in
+  let p := mkRule (TComplex [TAtom [112%N]; X])
+                  (GOp OAnd [GCall (TComplex [TAtom [110%N]; X]);
+                             GOp OOr [GBip n_unify (Some [X; TInt 2]); GBip n_unify (Some [X; TInt 3])]]) in
+  let kb := [([112; 47; 49]%N, [p]); ([110; 47; 49]%N, [n 1%Z; n 2%Z; n 3%Z])] in
+  let q := TComplex [TAtom [112%N]; TVar 1 [36; 65]%N] in
+  let w := mkWorld 1 false None [] in
+  match answers kb 50 50 q w, make_base_node kb (GCall q) w with
+  | Ok ([a; b], w2), Ok (nd, w1) =>
+      match drainK kb 50 9 60 nd w1 (fun s w' => Ok ([s], w')) with
+      | Ok ([a'; b'], w2') => N.eqb (next_id w2) (next_id w2')
+      | _ => false
+      end
+  | _, _ => false
+  end.
+Example C01_refines_witness : C01_demo = true.
+Proof. vm_compute. reflexivity. Qed.
+
 Example C01_witness :
   format_solution (GCall (TComplex [TAtom [112%N]; TVar 1 [36; 65]%N; TInt 3; TVar 2 [36; 66]%N]))
                   (TComplex [TAtom [112%N]; TInt 7; TInt 3; TAtom [98%N]])
@@ -43,6 +101,9 @@ Check C01_partial_answer_format : forall f0 qargs f1 rargs, length qargs = lengt
   format_solution (GCall (TComplex (f0 :: qargs))) (TComplex (f1 :: rargs)) =
   Ok (show_pairs true (var_pairs qargs rargs)).
 
+Print Assumptions C01_refines.
+Print Assumptions C01_step.
+Print Assumptions C01_fresh_node.
 Print Assumptions C01_partial_answer_format.
 Print Assumptions C01_partial_sequence_ends.
 Print Assumptions C01_partial_calls_are_opaque.
